@@ -319,10 +319,40 @@ def canon_timing(l):
     return canon_default(l)
 
 
+TIMING_SUITES = {"cdisp", "sdisp", "l3c", "l3s"}
+
+
+class TimingSlot:
+    """suites with real (short) timeouts are sensitive to CPU contention: at most 3 of them run at once, machine wide"""
+    def __init__(self, suite):
+        self.suite = suite
+        self.f = None
+
+    def __enter__(self):
+        if self.suite not in TIMING_SUITES:
+            return self
+        import itertools
+        for k in itertools.cycle(range(3)):
+            f = open(os.path.join(V, f".timing_slot_{k}"), "w")
+            try:
+                fcntl.flock(f, fcntl.LOCK_EX | fcntl.LOCK_NB)
+                self.f = f
+                return self
+            except OSError:
+                f.close()
+                time.sleep(0.05)
+
+    def __exit__(self, *a):
+        if self.f:
+            fcntl.flock(self.f, fcntl.LOCK_UN)
+            self.f.close()
+
+
 def run_pair(suite, ops, timeout=600):
     inp = "\n".join(ops) + "\n"
     try:
-        rc1, impl = sh([HARNESS, "run", suite], inp=inp, timeout=timeout, env=GOENV)
+        with TimingSlot(suite):
+            rc1, impl = sh([HARNESS, "run", suite], inp=inp, timeout=timeout, env=GOENV)
     except subprocess.TimeoutExpired:
         rc1, impl = 124, "HARNESS-TIMEOUT"
     try:
@@ -357,14 +387,16 @@ def first_mismatch(suite, ops, canon):
 
 
 def shrink(suite, ses, canon):
-    """ddmin-ish: drop lines (never the first) while a mismatch remains"""
+    """ddmin-ish: drop lines while a mismatch remains; the session header (reset + the line after it, e.g. start /
+    new) is never dropped so that the shrunk session stays well-formed"""
     cur = list(ses)
     n = 2
     budget = 200
-    while len(cur) > 2 and budget > 0:
-        chunk = max(1, (len(cur) - 1) // n)
+    keep = 2 if len(cur) > 2 else 1
+    while len(cur) > keep + 1 and budget > 0:
+        chunk = max(1, (len(cur) - keep) // n)
         reduced = False
-        i = 1
+        i = keep
         while i < len(cur) and budget > 0:
             cand = cur[:i] + cur[i + chunk:]
             budget -= 1
@@ -436,6 +468,20 @@ def differential(ctx, suite, sessions, seed, canon=canon_default, nontrivial=Non
     ctx.extra.setdefault("distribution", {})[suite] = dict(sessions=len(ses), corpus_files=ncorp, ops=len(ops_all),
                                                           op_kinds=dict(kinds.most_common(40)), outputs=dict(outs.most_common(25)),
                                                           sessions_cut_short_by_harness_timing=timing_lines[0])
+    # a logic disagreement is deterministic, a timing artefact is not: keep only the sessions whose disagreement
+    # reproduces when the session is re-run alone (twice)
+    unconfirmed = 0
+    if bad:
+        confirmed = []
+        for (s, mism) in bad[:8]:
+            if any(first_mismatch(suite, s, canon) is not None for _ in range(2)):
+                confirmed.append((s, mism))
+            else:
+                unconfirmed += 1
+        if len(bad) > 8 and confirmed:
+            confirmed += bad[8:]
+        bad = confirmed
+    ctx.extra["distribution"][suite]["disagreements_not_reproduced_on_rerun"] = unconfirmed
     ctx.oblige(f"tie:differential {suite} ({len(ses)} sessions, {len(ops_all)} ops): implementation = model", not bad,
                f"{len(bad)} disagreeing sessions" if bad else "")
     if bad:
